@@ -247,23 +247,28 @@ Proof.
   pose proof (sub_length S pos (pos + blen d) ltac:(lia) ltac:(lia) ltac:(lia)) as Hl. unfold blen in *. lia.
 Qed.
 
-Lemma reader_step_ok op s lrs o s' lrs' : InvS S s -> rune_free op = true ->
-  reader_step false op (s, lrs) = Some (o, (s', lrs')) ->
+Lemma reader_step_ok wt op s lrs o s' lrs' : InvS S s -> no_unrune op = true -> is_reset op = false ->
+  reader_step wt op (s, lrs) = Some (o, (s', lrs')) ->
   InvS S s' /\ exists ret, o = VL [VL ret; VZ (rtotal s'); VZ (rpulled s'); VZ (buffered s')] /\
                           reader_op_ok S (rtotal s) (rtotal s') op ret = true.
 Proof.
   intros HS. destruct (pulled_bound s HS) as (_ & Hpos & _). pose proof HS as (HI & _).
-  unfold reader_step, rune_free.
+  unfold reader_step, no_unrune, is_reset.
   destruct op as [z|b|l]; try discriminate.
   destruct l as [|[tag| |] l]; try discriminate.
   destruct tag as [|p|p]; try discriminate.
   repeat (destruct p as [p|p|]; try discriminate).
   all: intros Hrf; try (vm_compute in Hrf; discriminate Hrf).
   all: destruct l as [|[n| |] [|? ?]]; try discriminate.
+  all: intros Hnr; try discriminate Hnr.
   all: try (destruct (rd_slice 10 s) as [[line0 ?] ?] eqn:E0).
-  - (* 9 *) destruct (rd_writeto s) as [[d e] s1] eqn:E. intros H; inversion H; subst.
-    destruct (rd_writeto_S S s d e s' HS E) as (HS1 & [HL1 HL2]). split; [exact HS1|].
-    eexists. split; [reflexivity|]. cbn [reader_op_ok]. rewrite (slice_at_of_law _ _ Hpos HL1). lia.
+  - (* 9 *) destruct wt.
+    + destruct (rd_writeto_wt s) as [[d e] s1] eqn:E. intros H; inversion H; subst.
+      destruct (rd_writeto_wt_S S s d e s' HS E) as (HS1 & [HL1 HL2]). split; [exact HS1|].
+      eexists. split; [reflexivity|]. cbn [reader_op_ok]. rewrite (slice_at_of_law _ _ Hpos HL1). lia.
+    + destruct (rd_writeto s) as [[d e] s1] eqn:E. intros H; inversion H; subst.
+      destruct (rd_writeto_S S s d e s' HS E) as (HS1 & [HL1 HL2]). split; [exact HS1|].
+      eexists. split; [reflexivity|]. cbn [reader_op_ok]. rewrite (slice_at_of_law _ _ Hpos HL1). lia.
   - (* 5 *) destruct (rd_line s) as [[[d pre] e] s1] eqn:E. intros H; inversion H; subst.
     destruct (rd_line_S S s d pre e s' HS E) as [HS1 [term (Hsub & Hterm & Hlen & Hpre)]].
     destruct (rd_line_shape s d pre e s' HI E) as [Hno Herr].
@@ -278,6 +283,13 @@ Proof.
   - (* 3 *) destruct (rd_unread s) as [e s1] eqn:E. intros H; inversion H; subst.
     destruct (rd_unread_S S s e s' HS E) as [HS1 HL]. split; [exact HS1|].
     eexists. split; [reflexivity|]. cbn [reader_op_ok]. destruct (e =? 0); lia.
+  - (* 10 *) destruct (rd_rune s) as [[[[r0 size] e] s1] l1] eqn:E. intros H; inversion H; subst.
+    destruct (rd_rune_S S s r0 size e s' lrs' HS E) as [HS1 HL]. split; [exact HS1|].
+    eexists. split; [reflexivity|]. cbn [reader_op_ok].
+    destruct (e =? 0).
+    + destruct HL as (Hsz & Ht & Hdec). pose proof HS1 as (_ & HtS1 & _).
+      rewrite Ht in *. rewrite Hdec, !Z.eqb_refl. lia.
+    + destruct HL as [Ht Hs0]. lia.
   - (* 6 *) destruct (rd_peek n s) as [[d e] s1] eqn:E. intros H; inversion H; subst.
     destruct (rd_peek_S S n s d e s' HS E) as (HS1 & Ht & HL). pose proof (rd_peek_shape n s d e s' HI E) as Hsh.
     split; [exact HS1|]. eexists. split; [reflexivity|]. cbn [reader_op_ok].
@@ -309,33 +321,69 @@ Qed.
 End Central.
 
 (* ---------- reader histories ---------- *)
-Lemma reader_run_ok S (Swf : Forall (fun b => 0 <= b) S) : forall ops s lrs obs, InvS S s ->
-  forallb rune_free ops = true -> reader_run false ops (s, lrs) = Some obs ->
+Lemma Forall_skipn_own {A} (P : A -> Prop) n (l : list A) : Forall P l -> Forall P (skipn n l).
+Proof. intros H. rewrite <- (firstn_skipn n l) in H. apply Forall_app in H. apply H. Qed.
+
+Lemma is_reset_true op : is_reset op = true -> op = VL [VZ 12].
+Proof.
+  unfold is_reset. destruct op as [z|b|l]; try discriminate.
+  destruct l as [|[tag| |] rest]; try discriminate.
+  destruct tag as [|p|p]; try discriminate.
+  repeat (destruct p as [p|p|]; try discriminate).
+  all: destruct rest; try discriminate.
+  all: intros _; reflexivity.
+Qed.
+
+Lemma rd_reset_S S s : InvS S s ->
+  InvS (skipn (Z.to_nat (rpulled s)) S) (snd (rd_reset s)) /\ rtotal s <= rpulled s <= blen S.
+Proof.
+  intros HS. destruct (pulled_bound S s HS) as (Hp & Ht0 & Hb & Ht). pose proof HS as (HI & HtS & HR & _).
+  pose proof (window_len s HI) as Hwl. split; [|unfold buffered in *; lia].
+  unfold rd_reset. cbn [snd]. split; [apply (rd_reset_inv s (rpulled s) _ HI eq_refl)|].
+  cbn [rtotal rr rw rlast rbuf rsrc]. split; [apply blen_nonneg|]. split; [|split].
+  - unfold R, window. cbn [rbuf rr rw rsrc]. rewrite sub_empty. cbn [app skipn Z.to_nat].
+    destruct (S_consume S (rtotal s) (window s) (script_stream (rsrc s)) (blen (window s)) Ht0 HR
+                ltac:(pose proof (blen_nonneg (window s)); lia)) as (Hsk & _).
+    replace (rpulled s) with (rtotal s + blen (window s)) by (unfold buffered in *; lia).
+    rewrite Hsk. unfold blen. rewrite Nat2Z.id, skipn_all. reflexivity.
+  - right. intros i Hi. cbn [rr] in Hi. lia.
+  - unfold LastOK. cbn [rlast]. lia.
+Qed.
+
+Lemma reader_run_ok wt : forall ops S s lrs obs, Forall (fun b => 0 <= b) S -> InvS S s ->
+  forallb no_unrune ops = true -> reader_run wt ops (s, lrs) = Some obs ->
   prop_reader S (rtotal s) ops obs = true.
 Proof.
-  induction ops as [|op ops IH]; intros s lrs obs HS Hrf; cbn [reader_run].
+  induction ops as [|op ops IH]; intros S s lrs obs Swf HS Hrf; cbn [reader_run].
   - intros E; inversion E; subst. reflexivity.
   - cbn [forallb] in Hrf. apply andb_true_iff in Hrf. destruct Hrf as [Hr1 Hr2].
-    destruct (reader_step false op (s, lrs)) as [[o [s1 l1]]|] eqn:Es; [|discriminate].
-    destruct (reader_step_ok S Swf op s lrs o s1 l1 HS Hr1 Es) as [HS1 [ret [Ho Hok]]].
-    destruct (reader_run false ops (s1, l1)) as [os|] eqn:Er; [|discriminate].
-    intros E; inversion E; subst. cbn [prop_reader].
-    destruct (pulled_bound S s1 HS1) as (Hp & Ht0 & Hb & Ht).
-    replace (rpulled s1 - buffered s1) with (rtotal s1) by lia.
-    rewrite Hok, (IH s1 l1 os HS1 Hr2 Er). lia.
+    destruct (is_reset op) eqn:Eres.
+    + apply is_reset_true in Eres. subst op. cbn [reader_step].
+      destruct (rd_reset_S S s HS) as [HS1 Hb]. unfold rd_reset in *. cbn [snd] in HS1.
+      destruct (reader_run wt ops (_, -1)) as [os|] eqn:Er; [|discriminate].
+      intros E; inversion E; subst. cbn [prop_reader is_reset]. unfold robs, buffered. cbn [rtotal rpulled rr rw].
+      pose proof (IH _ _ _ _ (Forall_skipn_own _ _ _ Swf) HS1 Hr2 Er) as Hrec. cbn [rtotal] in Hrec. rewrite Hrec.
+      cbn. lia.
+    + destruct (reader_step wt op (s, lrs)) as [[o [s1 l1]]|] eqn:Es; [|discriminate].
+      destruct (reader_step_ok S Swf wt op s lrs o s1 l1 HS Hr1 Eres Es) as [HS1 [ret [Ho Hok]]].
+      destruct (reader_run wt ops (s1, l1)) as [os|] eqn:Er; [|discriminate].
+      intros E; inversion E; subst. cbn [prop_reader]. rewrite Eres.
+      destruct (pulled_bound S s1 HS1) as (Hp & Ht0 & Hb & Ht).
+      replace (rpulled s1 - buffered s1) with (rtotal s1) by lia.
+      rewrite Hok, (IH S s1 l1 os Swf HS1 Hr2 Er). lia.
 Qed.
 
 Definition wf_rop (op : val) : bool :=
   match op with
   | VL [VZ 1; VZ n] => 0 <=? n
-  | VL [VZ 2] | VL [VZ 3] | VL [VZ 5] | VL [VZ 9] => true
+  | VL [VZ 2] | VL [VZ 3] | VL [VZ 5] | VL [VZ 9] | VL [VZ 10] | VL [VZ 12] => true
   | VL [VZ 4; VZ _] | VL [VZ 6; VZ _] | VL [VZ 8; VZ _] => true
   | _ => false
   end.
 
-Lemma wf_rop_step op st : wf_rop op = true -> rune_free op = true /\ exists o st', reader_step false op st = Some (o, st').
+Lemma wf_rop_step wt op st : wf_rop op = true -> no_unrune op = true /\ exists o st', reader_step wt op st = Some (o, st').
 Proof.
-  destruct st as [s lrs]. unfold wf_rop, rune_free, reader_step.
+  destruct st as [s lrs]. unfold wf_rop, no_unrune, reader_step.
   destruct op as [z|b|l]; try discriminate.
   destruct l as [|[tag| |] l]; try discriminate.
   destruct tag as [|p|p]; try discriminate.
@@ -343,16 +391,299 @@ Proof.
   all: destruct l as [|[n| |] [|? ?]]; try discriminate.
   all: intros Hwf; split; [reflexivity|].
   all: try (assert (n <? 0 = false) as -> by lia).
+  all: try destruct wt.
   all: repeat match goal with |- context [let '(_, _) := ?x in _] => destruct x end.
   all: eexists; eexists; reflexivity.
 Qed.
 
-Lemma wf_rops_run : forall ops st, forallb wf_rop ops = true ->
-  forallb rune_free ops = true /\ exists obs, reader_run false ops st = Some obs.
+Lemma wf_rops_run wt : forall ops st, forallb wf_rop ops = true ->
+  forallb no_unrune ops = true /\ exists obs, reader_run wt ops st = Some obs.
 Proof.
   induction ops as [|op ops IH]; intros st H; cbn [forallb reader_run] in *.
   - split; [reflexivity|eexists; reflexivity].
   - apply andb_true_iff in H. destruct H as [H1 H2].
-    destruct (wf_rop_step op st H1) as [Hr [o [st' Hs]]]. rewrite Hs, Hr.
+    destruct (wf_rop_step wt op st H1) as [Hr [o [st' Hs]]]. rewrite Hs, Hr.
     destruct (IH st' H2) as [Hr2 [obs Ho]]. rewrite Ho, Hr2. split; [reflexivity|eexists; reflexivity].
 Qed.
+
+(* ---------- writer: the sink only grows ---------- *)
+Definition sunk (s : writer) : Z := blen (wout s).
+Lemma sink_write_mono p s k e s1 : sink_write p s = (k, e, s1) -> sunk s <= sunk s1.
+Proof. intros E. destruct (sink_write_spec _ _ _ _ _ E) as (Hk & Ho & _). unfold sunk. lia. Qed.
+Lemma w_flush_mono s e s' : w_flush s = (e, s') -> sunk s <= sunk s'.
+Proof.
+  unfold w_flush. destruct (negb (werr s =? 0)); [intros E; inversion E; subst; lia|].
+  destruct (wbuf s) as [|x b] eqn:Eb; [intros E; inversion E; subst; lia|]. rewrite <- Eb.
+  destruct (sink_write (wbuf s) s) as [[k e0] s1] eqn:Es. pose proof (sink_write_mono _ _ _ _ _ Es) as Hm.
+  destruct (negb ((if (k <? blen (wbuf s)) && (e0 =? 0) then 7 else e0) =? 0)); intros E; inversion E; subst;
+    unfold sunk, w_set in *; cbn [wout]; exact Hm.
+Qed.
+Lemma w_write_loop_mono : forall fuel direct p nn s p' nn' s',
+  w_write_loop fuel direct p nn s = (p', nn', s') -> sunk s <= sunk s'.
+Proof.
+  induction fuel as [|f IH]; intros direct p nn s p' nn' s'; cbn [w_write_loop].
+  - intros E; inversion E; subst. unfold sunk, w_set. cbn [wout]. lia.
+  - destruct ((avail s <? blen p) && (werr s =? 0)); [|intros E; inversion E; subst; lia].
+    assert (Hbuf : forall n,
+       (let s1 := w_set s (wbuf s ++ firstn (Z.to_nat n) p) (werr s) in
+        let '(_, s2) := w_flush s1 in w_write_loop f direct (skipn (Z.to_nat n) p) (nn + n) s2) = (p', nn', s') ->
+       sunk s <= sunk s').
+    { intros n. cbn zeta. destruct (w_flush (w_set s (wbuf s ++ firstn (Z.to_nat n) p) (werr s))) as [fe s2] eqn:Ef.
+      pose proof (w_flush_mono _ _ _ Ef) as H1. intros E. pose proof (IH _ _ _ _ _ _ _ E) as H2.
+      unfold sunk, w_set in *. cbn [wout] in *. lia. }
+    destruct direct; [|apply Hbuf].
+    destruct (wbuf s) as [|x b] eqn:Eb; [|rewrite <- Eb in *; apply Hbuf].
+    destruct (sink_write p s) as [[k e] s1] eqn:Es. pose proof (sink_write_mono _ _ _ _ _ Es) as H1.
+    intros E. pose proof (IH _ _ _ _ _ _ _ E) as H2. unfold sunk, w_set in *. cbn [wout] in *. lia.
+Qed.
+Lemma w_write_gen_mono direct p s n e s' : w_write_gen direct p s = (n, e, s') -> sunk s <= sunk s'.
+Proof.
+  unfold w_write_gen. destruct (w_write_loop _ direct p 0 s) as [[p' nn] s1] eqn:El.
+  pose proof (w_write_loop_mono _ _ _ _ _ _ _ _ El) as H1.
+  destruct (negb (werr s1 =? 0)); intros E; inversion E; subst; unfold sunk, w_add_total, w_set in *; cbn [wout] in *; exact H1.
+Qed.
+Lemma w_write_byte_mono c s e s' : w_write_byte c s = (e, s') -> sunk s <= sunk s'.
+Proof.
+  unfold w_write_byte. destruct (negb (werr s =? 0)); [intros E; inversion E; subst; lia|].
+  destruct (avail s <=? 0).
+  - destruct (w_flush s) as [fe s1] eqn:Ef. pose proof (w_flush_mono _ _ _ Ef) as H1.
+    destruct (negb (fe =? 0)); intros E; inversion E; subst; unfold sunk, w_add_total, w_set in *; cbn [wout] in *; exact H1.
+  - cbn [negb Z.eqb]. intros E; inversion E; subst. unfold sunk, w_add_total, w_set. cbn [wout]. lia.
+Qed.
+Lemma w_readfrom_loop_mono : forall fuel src n s early n' e' s',
+  w_readfrom_loop fuel src n s = (early, (n', e', s')) ->
+  match early with Some (_, _, s1) => sunk s <= sunk s1 | None => sunk s <= sunk s' end.
+Proof.
+  induction fuel as [|f IH]; intros src n s early n' e' s'; cbn [w_readfrom_loop].
+  - intros E; inversion E; subst. lia.
+  - assert (Hcore : forall s1, sunk s <= sunk s1 ->
+      (let '(d, e, src') := src_read (avail s1) src in
+       if blen d =? 0 then (None, (n, e, s1))
+       else let s2 := w_set s1 (wbuf s1 ++ d) (werr s1) in
+            if negb (e =? 0) then (None, (n + blen d, e, s2)) else w_readfrom_loop f src' (n + blen d) s2)
+      = (early, (n', e', s')) ->
+      match early with Some (_, _, s1') => sunk s <= sunk s1' | None => sunk s <= sunk s' end).
+    { intros s1 H1. destruct (src_read (avail s1) src) as [[d e] src'].
+      destruct (blen d =? 0); [intros E; inversion E; subst; exact H1|].
+      destruct (negb (e =? 0)); [intros E; inversion E; subst; unfold sunk, w_set in *; cbn [wout]; exact H1|].
+      intros E. pose proof (IH _ _ _ _ _ _ _ E) as H2. unfold sunk, w_set in *. cbn [wout] in *.
+      destruct early as [[[? ?] ?]|]; lia. }
+    destruct (avail s =? 0).
+    + destruct (w_flush s) as [fe s1] eqn:Ef. pose proof (w_flush_mono _ _ _ Ef) as H1.
+      destruct (negb (fe =? 0)); [intros E; inversion E; subst; unfold sunk, w_add_total in *; cbn [wout]; exact H1|].
+      apply Hcore. exact H1.
+    + cbn [negb Z.eqb]. apply Hcore. lia.
+Qed.
+Lemma w_readfrom_mono src s n e s' : w_readfrom src s = (n, e, s') -> sunk s <= sunk s'.
+Proof.
+  unfold w_readfrom. destruct (w_readfrom_loop _ src 0 s) as [early [[n1 e1] s1]] eqn:El.
+  pose proof (w_readfrom_loop_mono _ _ _ _ _ _ _ _ El) as H.
+  destruct early as [[[n2 e2] s2]|]; [intros E; inversion E; subst; exact H|].
+  destruct (e1 =? 1).
+  - destruct (avail s1 =? 0).
+    + destruct (w_flush s1) as [fe s2] eqn:Ef. pose proof (w_flush_mono _ _ _ Ef).
+      intros E; inversion E; subst. unfold sunk, w_add_total in *. cbn [wout]. lia.
+    + intros E; inversion E; subst. unfold sunk, w_add_total in *. cbn [wout]. lia.
+  - intros E; inversion E; subst. unfold sunk, w_add_total in *. cbn [wout]. lia.
+Qed.
+Lemma w_write_rune_mono r s n e s' : w_write_rune r s = (n, e, s') -> sunk s <= sunk s'.
+Proof.
+  unfold w_write_rune. destruct (r <? 128).
+  - destruct (w_write_byte (r mod 256) s) as [e1 s1] eqn:E1. pose proof (w_write_byte_mono _ _ _ _ E1).
+    destruct (negb (e1 =? 0)); intros E; inversion E; subst; assumption.
+  - destruct (negb (werr s =? 0)); [intros E; inversion E; subst; lia|].
+    destruct (avail s <? 4).
+    + destruct (w_flush s) as [fe s1] eqn:Ef. pose proof (w_flush_mono _ _ _ Ef) as H1.
+      destruct (negb (werr s1 =? 0)); [intros E; inversion E; subst; exact H1|].
+      destruct (avail s1 <? 4).
+      * intros E. pose proof (w_write_gen_mono _ _ _ _ _ _ E). lia.
+      * intros E; inversion E; subst. unfold sunk, w_add_total, w_set in *. cbn [wout]. exact H1.
+    + intros E; inversion E; subst. unfold sunk, w_add_total, w_set. cbn [wout]. lia.
+Qed.
+
+(* ---------- one writer step satisfies the executable predicate ---------- *)
+Lemma w_readfrom_rf_mono src s n e s' : w_readfrom_rf src s = (n, e, s') -> sunk s <= sunk s'.
+Proof.
+  unfold w_readfrom_rf. destruct (wbuf s); [|apply w_readfrom_mono].
+  destruct (src_drain src) as [[d e0] rest]. intros E; inversion E; subst. unfold sunk. cbn [wout].
+  rewrite blen_app. pose proof (blen_nonneg d). lia.
+Qed.
+
+Lemma writer_step_ok rf op s o s' : WInv s -> is_wreset op = false -> writer_step rf op s = Some (o, s') ->
+  WInv s' /\ sunk s <= sunk s' /\
+  exists ret a e fl, o = VL [VL ret; VZ (wtotal s'); VZ (sunk s'); VZ (blen (wbuf s'))] /\
+     writer_op_acc op ret = Some (a, e, fl) /\ wall s' = wall s ++ a /\
+     (fl && (e =? 0) = true -> blen (wbuf s') = 0).
+Proof.
+  intros HI Hnr Hstep. destruct (writer_step_inv rf op s o s' HI Hstep) as [HI1 _]. split; [exact HI1|].
+  revert Hnr Hstep. unfold writer_step, sunk, is_wreset.
+  destruct op as [z|b|l]; try discriminate.
+  destruct l as [|[tag| |] l]; try discriminate.
+  destruct tag as [|p|p]; try discriminate.
+  repeat (destruct p as [p|p|]; try discriminate).
+  all: destruct l as [|x [|? ?]]; try discriminate.
+  all: try (destruct x as [c|d|src]; try discriminate).
+  all: intros Hnr; try discriminate Hnr.
+  - (* 7 WriteRune *) destruct (w_write_rune c s) as [[n e] s1] eqn:E. intros H; inversion H; subst.
+    destruct (w_write_rune_wall c s n e s' HI E) as (Hn & Hw & He). split; [apply (w_write_rune_mono _ _ _ _ _ E)|].
+    eexists [VZ n; VZ e], _, e, false. split; [reflexivity|]. split; [|split; [exact Hw|discriminate]].
+    cbn [writer_op_acc]. cbv zeta in *.
+    match goal with |- (if ?b then _ else _) = _ => let Hb := fresh in assert (Hb : b = true) by lia; rewrite Hb end.
+    reflexivity.
+  - (* 3 WriteString *) destruct (w_write_string d s) as [[n e] s1] eqn:E. intros H; inversion H; subst.
+    destruct (w_write_gen_wall false d s n e s' HI E) as (Hn & Hw & He). split; [apply (w_write_gen_mono _ _ _ _ _ _ E)|].
+    eexists [VZ n; VZ e], _, e, false. split; [reflexivity|]. split; [|split; [exact Hw|discriminate]].
+    cbn [writer_op_acc].
+    match goal with |- (if ?b then _ else _) = _ => let Hb := fresh in assert (Hb : b = true) by lia; rewrite Hb end.
+    reflexivity.
+  - (* 6 ReadFrom *) destruct (dec_script (VL src)) as [sc|] eqn:Ed; [|discriminate].
+    assert (Hfin : forall n e, o = wobs [VZ n; VZ e] s' -> sunk s <= sunk s' ->
+              wall s' = wall s ++ firstn (Z.to_nat n) (script_stream sc) -> 0 <= n <= blen (script_stream sc) ->
+              blen (wout s) <= blen (wout s') /\
+              exists ret a e0 fl, o = VL [VL ret; VZ (wtotal s'); VZ (blen (wout s')); VZ (blen (wbuf s'))] /\
+                writer_op_acc (VL [VZ 6; VL src]) ret = Some (a, e0, fl) /\ wall s' = wall s ++ a /\
+                (fl && (e0 =? 0) = true -> blen (wbuf s') = 0)).
+    { intros n e -> Hm Hw Hn. split; [exact Hm|].
+      eexists [VZ n; VZ e], _, e, false. split; [reflexivity|]. split; [|split; [exact Hw|discriminate]].
+      cbn [writer_op_acc]. rewrite Ed. unfold script_stream in Hn.
+      match goal with |- (if ?b then _ else _) = _ => let Hb := fresh in assert (Hb : b = true) by lia; rewrite Hb end.
+      reflexivity. }
+    destruct rf.
+    + destruct (w_readfrom_rf sc s) as [[n e] s1] eqn:E. intros H; inversion H; subst.
+      destruct (w_readfrom_rf_wall sc s n e s' HI E) as [Hw Hn].
+      apply (Hfin n e eq_refl (w_readfrom_rf_mono _ _ _ _ _ E) Hw Hn).
+    + destruct (w_readfrom sc s) as [[n e] s1] eqn:E. intros H; inversion H; subst.
+      destruct (w_readfrom_wall sc s n e s' HI E) as [Hw Hn].
+      apply (Hfin n e eq_refl (w_readfrom_mono _ _ _ _ _ E) Hw Hn).
+  - (* 4 Flush *) destruct (w_flush s) as [e s1] eqn:E. intros H; inversion H; subst.
+    split; [apply (w_flush_mono _ _ _ E)|].
+    eexists [VZ e], [], e, true. split; [reflexivity|]. split; [reflexivity|]. split.
+    + rewrite app_nil_r. apply (w_flush_wall _ _ _ E).
+    + intros He. destruct (w_flush_inv _ _ _ _ HI E) as (_ & Hempty & _).
+      assert (e = 0) by (destruct (e =? 0) eqn:X; [lia|discriminate]).
+      rewrite (Hempty H0 (w_flush_err0 _ _ _ E H0)). reflexivity.
+  - (* 2 WriteByte *) destruct (w_write_byte c s) as [e s1] eqn:E. intros H; inversion H; subst.
+    split; [apply (w_write_byte_mono _ _ _ _ E)|].
+    eexists [VZ e], _, e, false. split; [reflexivity|]. split; [reflexivity|]. split; [|discriminate].
+    apply (w_write_byte_wall _ _ _ _ HI E).
+  - (* 1 Write *) destruct (w_write d s) as [[n e] s1] eqn:E. intros H; inversion H; subst.
+    destruct (w_write_gen_wall true d s n e s' HI E) as (Hn & Hw & He). split; [apply (w_write_gen_mono _ _ _ _ _ _ E)|].
+    eexists [VZ n; VZ e], _, e, false. split; [reflexivity|]. split; [|split; [exact Hw|discriminate]].
+    cbn [writer_op_acc].
+    match goal with |- (if ?b then _ else _) = _ => let Hb := fresh in assert (Hb : b = true) by lia; rewrite Hb end.
+    reflexivity.
+Qed.
+
+Lemma is_wreset_true op : is_wreset op = true -> op = VL [VZ 5].
+Proof.
+  unfold is_wreset. destruct op as [z|b|l]; try discriminate.
+  destruct l as [|[tag| |] rest]; try discriminate.
+  destruct tag as [|p|p]; try discriminate.
+  repeat (destruct p as [p|p|]; try discriminate).
+  all: destruct rest; try discriminate.
+  all: intros _; reflexivity.
+Qed.
+
+Lemma writer_run_ok rf : forall ops s obs, WInv s -> writer_run rf ops s = Some obs ->
+  prop_writer (wall s) (sunk s) ops obs = true.
+Proof.
+  induction ops as [|op ops IH]; intros s obs HI; cbn [writer_run].
+  - intros E; inversion E; subst. cbn [prop_writer]. unfold sunk. rewrite Z.eqb_refl. cbn [andb].
+    apply is_prefix_spec. exists (wbuf s). reflexivity.
+  - destruct (is_wreset op) eqn:Eres.
+    + apply is_wreset_true in Eres. subst op. cbn [writer_step]. unfold w_reset.
+      destruct (writer_run rf ops _) as [os|] eqn:Er; [|discriminate].
+      intros E; inversion E; subst. cbn [prop_writer is_wreset]. unfold wobs. cbn [wtotal wout wbuf].
+      assert (HI1 : WInv (mkW [] (wcap s) 0 0 (wsink s) [])) by (apply (w_reset_inv s _ _ HI eq_refl)).
+      pose proof (IH _ _ HI1 Er) as Hrec. unfold wall, sunk in Hrec. cbn [wout wbuf app] in Hrec.
+      change (blen []) with 0 in *. rewrite Hrec. unfold sunk. rewrite Z.eqb_refl. cbn [andb].
+      assert (Hp : is_prefix (wout s) (wall s) = true) by (apply is_prefix_spec; exists (wbuf s); reflexivity).
+      rewrite Hp. reflexivity.
+    + destruct (writer_step rf op s) as [[o s1]|] eqn:Es; [|discriminate].
+      destruct (writer_step_ok rf op s o s1 HI Eres Es) as (HI1 & Hm & ret & a & e & fl & Ho & Hacc & Hw & Hfl).
+      destruct (writer_run rf ops s1) as [os|] eqn:Er; [|discriminate].
+      intros E; inversion E; subst. cbn [prop_writer]. rewrite Eres, Hacc.
+      pose proof (IH s1 os HI1 Er) as Hrec. rewrite Hw in Hrec. rewrite Hrec.
+      pose proof (wall_len s1 HI1) as Hlen. rewrite Hw in Hlen.
+      pose proof HI1 as (Ht & Hb & Hc). pose proof (blen_nonneg (wbuf s1)).
+      assert (Hf : (if fl && (e =? 0) then blen (wbuf s1) =? 0 else true) = true).
+      { destruct (fl && (e =? 0)) eqn:X; [rewrite (Hfl eq_refl); reflexivity|reflexivity]. }
+      rewrite Hf. unfold sunk in *. lia.
+Qed.
+
+Definition wf_wop (op : val) : bool :=
+  match op with
+  | VL [VZ 1; VB _] | VL [VZ 3; VB _] => true
+  | VL [VZ 2; VZ _] | VL [VZ 7; VZ _] => true
+  | VL [VZ 4] | VL [VZ 5] => true
+  | VL [VZ 6; src] => match dec_script src with Some _ => true | None => false end
+  | _ => false
+  end.
+Lemma wf_wop_step rf op s : wf_wop op = true -> exists o s', writer_step rf op s = Some (o, s').
+Proof.
+  unfold wf_wop, writer_step.
+  destruct op as [z|b|l]; try discriminate.
+  destruct l as [|[tag| |] l]; try discriminate.
+  destruct tag as [|p|p]; try discriminate.
+  repeat (destruct p as [p|p|]; try discriminate).
+  all: destruct l as [|x [|? ?]]; try discriminate.
+  all: try (destruct x as [c|d|src]; try discriminate).
+  all: try (destruct (dec_script (VL src)) as [sc|]; [|discriminate]).
+  all: intros _.
+  all: try destruct rf.
+  all: repeat match goal with |- context [let '(_, _) := ?x in _] => destruct x end.
+  all: eexists; eexists; reflexivity.
+Qed.
+Lemma wf_wops_run rf : forall ops s, forallb wf_wop ops = true -> exists obs, writer_run rf ops s = Some obs.
+Proof.
+  induction ops as [|op ops IH]; intros s H; cbn [forallb writer_run] in *; [eexists; reflexivity|].
+  apply andb_true_iff in H. destruct H as [H1 H2].
+  destruct (wf_wop_step rf op s H1) as [o [s' Hs]]. rewrite Hs. destruct (IH s' H2) as [obs Ho]. rewrite Ho. eexists; reflexivity.
+Qed.
+
+(* ---------- the central theorem ---------- *)
+Definition wf_C22 (i : val) : bool :=
+  match i with
+  | VL [VZ tag; VZ cap; src; VL ops] =>
+    if (tag =? 1) || (tag =? 3) then
+      match dec_script src with
+      | Some sc => forallb (fun c => forallb (Z.leb 0) (fst c)) sc && forallb wf_rop ops
+      | None => false
+      end
+    else if (tag =? 2) || (tag =? 4) then
+      match dec_sink src with Some _ => forallb wf_wop ops | None => false end
+    else false
+  | _ => false
+  end.
+
+Lemma stream_nonneg sc : forallb (fun c => forallb (Z.leb 0) (fst c)) sc = true -> Forall (fun b => 0 <= b) (script_stream sc).
+Proof.
+  unfold script_stream. induction sc as [|[d e] r IH]; intros H; simpl in *; [constructor|].
+  apply andb_true_iff in H. destruct H as [H1 H2]. apply Forall_app. split; [|apply IH; exact H2].
+  rewrite Forall_forall. rewrite forallb_forall in H1. intros b Hb. specialize (H1 b Hb). lia.
+Qed.
+
+Theorem prop_C22_of_model i : wf_C22 i = true -> kf_C22 i = 0 -> prop_C22 i (run_C22 i) = true.
+Proof.
+  intros Hwf _. unfold wf_C22 in Hwf.
+  destruct i as [z|b|l]; try discriminate.
+  destruct l as [|[tag| |] [|[cap| |] [|src [|[| |ops] [|? ?]]]]]; try discriminate.
+  unfold run_C22, prop_C22.
+  destruct ((tag =? 1) || (tag =? 3)) eqn:E1.
+  - destruct (dec_script src) as [sc|] eqn:Ed; [|discriminate].
+    apply andb_true_iff in Hwf. destruct Hwf as [Hb Hops].
+    destruct (wf_rops_run (tag =? 3) ops (new_reader cap sc, -1) Hops) as [Hrf [obs Hrun]].
+    rewrite Hrun.
+    exact (reader_run_ok (tag =? 3) ops (script_stream sc) (new_reader cap sc) (-1) obs (stream_nonneg sc Hb)
+             (new_reader_invS cap sc) Hrf Hrun).
+  - destruct ((tag =? 2) || (tag =? 4)) eqn:E2; [|discriminate].
+    destruct (dec_sink src) as [sk|] eqn:Ed; [|discriminate].
+    destruct (wf_wops_run (tag =? 4) ops (new_writer cap sk) Hwf) as [obs Hrun].
+    rewrite Hrun.
+    exact (writer_run_ok (tag =? 4) ops (new_writer cap sk) obs (new_writer_inv cap sk) Hrun).
+Qed.
+
+Lemma wf_C22_corpus :
+  wf_C22 (VL [VZ 1; VZ 16; VL [VL [VB [97;98]; VZ 0]; VL [VB [99;100;101;10]; VZ 0]]; VL [VL [VZ 2]; VL [VZ 4; VZ 10]]]) = true /\
+  wf_C22 (VL [VZ 2; VZ 4; VL [VL [VZ 0; VZ 8]]; VL [VL [VZ 6; VL [VL [VB [97;98;99;100;101;102;103;104]; VZ 0]]]]]) = true.
+Proof. vm_compute. split; reflexivity. Qed.
